@@ -188,8 +188,75 @@ func init() {
 			}
 			sb.WriteString("\ndef " + p[0] + " : List String := " + LeanStrList(returnedFuncList(fd)) + "\n")
 		}
+		// ---- who copies a name: the expressions under which names are KEPT
+		// createValue: the index expression(s) of `kvs[…] = id`; genTagKeyID: the `Key:` of the tag.Meta it appends;
+		// SimpleFieldIterator.NextName: what the write path passes as field.Meta.Name
+		sb.WriteString("\ndef kvStoredKeyExprs : List String := " + LeanStrList(mapStoreIndexTexts(FindFunc(kvf, "indexKVStore", "createValue"))) + "\n")
+		sb.WriteString("\ndef schemaStoredTagKeyExprs : List String := " + LeanStrList(compositeFieldTexts(FindFunc(ssf, "metricSchemaStore", "genTagKeyID"), "Key")) + "\n")
+		_, rrf, err := ParseFile(repo, "series/metric/row_readonly.go")
+		if err != nil {
+			return "", err
+		}
+		sb.WriteString("\ndef rowFieldNextNameExprs : List String := " + LeanStrList(returnTexts(FindFunc(rrf, "SimpleFieldIterator", "NextName"))) + "\n")
 		return sb.String(), nil
 	}})
+}
+
+// mapStoreIndexTexts: the index expressions of the assignments `m[<index>] = …` in fd, in source order.
+func mapStoreIndexTexts(fd *ast.FuncDecl) []string {
+	var out []string
+	if fd == nil || fd.Body == nil {
+		return out
+	}
+	ast.Inspect(fd.Body, func(n ast.Node) bool {
+		as, ok := n.(*ast.AssignStmt)
+		if !ok {
+			return true
+		}
+		for _, l := range as.Lhs {
+			if ix, ok := l.(*ast.IndexExpr); ok {
+				out = append(out, exprText(ix.Index))
+			}
+		}
+		return true
+	})
+	return out
+}
+
+// compositeFieldTexts: the value expressions given to field `name` in the composite literals of fd.
+func compositeFieldTexts(fd *ast.FuncDecl, name string) []string {
+	var out []string
+	if fd == nil || fd.Body == nil {
+		return out
+	}
+	ast.Inspect(fd.Body, func(n ast.Node) bool {
+		kv, ok := n.(*ast.KeyValueExpr)
+		if !ok {
+			return true
+		}
+		if id, ok := kv.Key.(*ast.Ident); ok && id.Name == name {
+			out = append(out, exprText(kv.Value))
+		}
+		return true
+	})
+	return out
+}
+
+// returnTexts: the result expressions of the return statements of fd.
+func returnTexts(fd *ast.FuncDecl) []string {
+	var out []string
+	if fd == nil || fd.Body == nil {
+		return out
+	}
+	ast.Inspect(fd.Body, func(n ast.Node) bool {
+		if rs, ok := n.(*ast.ReturnStmt); ok {
+			for _, r := range rs.Results {
+				out = append(out, exprText(r))
+			}
+		}
+		return true
+	})
+	return out
 }
 
 // errBranchCalls: for every `if … err … { … }` statement of fd whose body returns, the calls made in
